@@ -147,6 +147,7 @@ func CheckC18(run *evid.Run) {
 		same := hx.IO(wkey) // a fresh codec instance holding the same key
 		none := hx.IO("cbor")
 		other := hx.IO(rdOther)
+		neighboursDone := i%4 != 0
 		for _, e := range appended {
 			links := append(append([]cid.Cid(nil), e.Next...), e.Refs...)
 			if len(links) == 0 {
@@ -193,6 +194,21 @@ func CheckC18(run *evid.Run) {
 					run.Violate("C18/same-key-verify", det(), wit(), "entry decoded with the same key does not verify: %v", err)
 				}
 			}
+			// every key that differs from the writer's in ONE bit is a different key (one entry per history, all 256 bits)
+			if !neighboursDone {
+				neighboursDone = true
+				kb := hx.LinkKeyBytes(map[string]int{"link": 1, "link2": 2}[wkey])
+				for bit := 0; bit < 256; bit++ {
+					nk := append([]byte(nil), kb...)
+					nk[bit/8] ^= 1 << uint(bit%8)
+					d, err := hx.LinkIOFromBytes(nk).DecodeRawEntry(node, e.Hash, provider)
+					run.Count("readers_with_a_key_one_bit_away", 1)
+					if err == nil && (len(d.GetNext()) != 0 || len(d.GetRefs()) != 0) {
+						run.Violate("C18/foreign-reader-got-links", det("reader", "key differing in one bit", "byte", bit/8, "bit", bit%8), wit(), "a reader whose key differs from the writer's only in bit %d of byte %d obtained %d links", bit%8, bit/8, len(d.GetNext())+len(d.GetRefs()))
+						break
+					}
+				}
+			}
 			// no key / other key
 			for name, rio := range map[string]iface.IO{"no-key": none, "other-key": other} {
 				d, err := rio.DecodeRawEntry(node, e.Hash, provider)
@@ -208,6 +224,48 @@ func CheckC18(run *evid.Run) {
 			run.NonTrivial(fmt.Sprintf("n%d/r%d/%s/%s", minInt(len(e.Next), 9), len(e.Refs), cl, wkey))
 			if len(links) > 2 && i < 3 {
 				run.Sample(wit())
+			}
+		}
+		// twin entries: two replicas of one writer share a history and append the SAME payload on the same head
+		// with different pointer counts through the same codec instance: each stored block must give a same-key
+		// reader the predecessors and references of ITS entry
+		if i%3 == 1 {
+			for _, l := range x.Logs {
+				if l.Len() < 6 {
+					continue
+				}
+				mk := func() *ipfslog.IPFSLog {
+					lo := x.W.LogOpts(x.W.LogID)
+					lo.Entries = l.GetEntries()
+					lo.Heads = l.Heads().Slice()
+					t, err := ipfslog.NewLog(x.W.Store.API(), x.W.Idents[0], lo)
+					if err != nil {
+						panic(err)
+					}
+					return t
+				}
+				t1, t2 := mk(), mk()
+				pl := []byte(fmt.Sprintf("%d.%d/twin", h.Seed, h.Idx))
+				e1, err1 := t1.Append(x.W.Ctx, pl, &iface.AppendOptions{PointerCount: 1})
+				e2, err2 := t2.Append(x.W.Ctx, pl, &iface.AppendOptions{PointerCount: 16})
+				if err1 != nil || err2 != nil {
+					break
+				}
+				run.Count("twin_entries_with_different_pointer_counts", 1)
+				for _, te := range []iface.IPFSLogEntry{e1, e2} {
+					back, err := entry.FromMultihashWithIO(x.W.Ctx, x.W.Store.API(), te.GetHash(), provider, same)
+					tw := map[string]any{"history": fmt.Sprintf("seed=%d idx=%d shape=%s", h.Seed, h.Idx, h.Shape), "twin_next": len(te.GetNext()), "twin_refs": len(te.GetRefs()), "writer_key": wkey}
+					if err != nil {
+						run.Violate("C18/same-key-decode", det("twins", true), tw, "same-key reader cannot read back a twin entry: %v", err)
+						continue
+					}
+					if !model_eqCids(back.GetNext(), te.GetNext()) || !model_eqCids(back.GetRefs(), te.GetRefs()) {
+						run.Violate("C18/same-key-links-differ", det("twins", true), tw, "same-key reader recovered next=%d refs=%d for an entry written with next=%d refs=%d (a twin entry with the same payload and head but another pointer count was written through the same codec)", len(back.GetNext()), len(back.GetRefs()), len(te.GetNext()), len(te.GetRefs()))
+					} else if err := back.Verify(provider, same); err != nil {
+						run.Violate("C18/same-key-verify", det("twins", true), tw, "twin entry read back with the same key does not verify: %v", err)
+					}
+				}
+				break
 			}
 		}
 		// EVERY block this history stored (appends, pre-signed writes, appends after a restore, ...): an entry block
